@@ -210,6 +210,19 @@ func callFeatures(cmd string, args []pv, optVals []pv) []string {
 				break
 			}
 		}
+	case "randint":
+		if len(args) == 2 && args[0].Rat != nil && args[1].Rat != nil && args[0].Rat.IsInt() && args[1].Rat.IsInt() &&
+			args[0].Rat.Num().IsInt64() && args[1].Rat.Num().IsInt64() &&
+			new(big.Int).Sub(args[1].Rat.Num(), args[0].Rat.Num()).Cmp(maxInt64) > 0 {
+			fs = append(fs, "randint-range-overflow")
+		}
+	case "flag:parse", "flag:call":
+		for _, a := range args {
+			if f := flagFeature(a.Src); f != "" {
+				fs = append(fs, f)
+				break
+			}
+		}
 	case "run-parallel":
 		for _, a := range args {
 			if a.Kind == "fn" && !a.Nullary {
@@ -219,6 +232,25 @@ func callFeatures(cmd string, args []pv, optVals []pv) []string {
 		}
 	}
 	return fs
+}
+
+var maxInt64 = big.NewInt(1<<63 - 1)
+
+// flag specs / closures whose flag names Go's flag package refuses by panicking
+const (
+	dupSpecs     = "[[a 1 d] [a 2 d]]"
+	badNameSpecs = "[[-a 1 d] ['b=c' 1 d]]"
+	dupOptFn     = "{|&a=1 &a=2| }"
+)
+
+func flagFeature(src string) string {
+	switch src {
+	case dupSpecs, dupOptFn:
+		return "flag-duplicate-name"
+	case badNameSpecs:
+		return "flag-malformed-name"
+	}
+	return ""
 }
 
 // classOf: a program is generated with at most one defect-prone feature, so
@@ -396,6 +428,33 @@ func run(c *reg.Ctx) {
 			args[i] = "a"
 		}
 		x.search("mixed-sweep", "call:"+cmd, "put (num 1) $nil [a] { } a | "+cmd+" "+strings.Join(args, " ")+suffix, nil)
+		// structured values (spec lists with duplicate / malformed names, a
+		// closure with a duplicate option) in every position, others empty lists
+		for pos := 0; pos < n && pos < 4; pos++ {
+			for _, v := range []string{dupSpecs, badNameSpecs, dupOptFn} {
+				args := make([]string, n)
+				for i := range args {
+					args[i] = "[]"
+				}
+				args[pos] = v
+				class := "call:" + cmd
+				if cmd == "flag:parse" || cmd == "flag:call" {
+					class = flagFeature(v)
+				}
+				x.search("spec-sweep", class, cmd+" "+strings.Join(args, " ")+suffix, nil)
+			}
+		}
+		// pairs of integers of huge magnitude for commands that take two or more
+		// arguments (ranges, bounds, counts); output is bounded by the sink
+		if _, r := restrictedCmds[cmd]; !r && n <= 2 && (a.hi < 0 || a.hi >= 2) && !bigPairBusy[cmd] {
+			for _, pr := range bigPairs {
+				class := "call:" + cmd
+				if cmd == "randint" && pr[2] == "overflow" {
+					class = "randint-range-overflow"
+				}
+				x.search("pair-sweep", class, cmd+" "+pr[0]+" "+pr[1]+suffix+" | verif:sink", nil)
+			}
+		}
 	}
 	// 3c. calls with pool arguments
 	nCalls := c.N * 3 / 5
@@ -428,6 +487,17 @@ func run(c *reg.Ctx) {
 	}
 	c.Dist["child-spawns"] = spawns
 }
+
+// low/high pairs; "overflow": high - low does not fit a machine int
+var bigPairs = [][3]string{
+	{"-5000000000000000000", "5000000000000000000", "overflow"},
+	{"-9223372036854775808", "9223372036854775807", "overflow"},
+	{"9223372036854775807", "-9223372036854775808", ""},
+	{"-9223372036854775809", "9223372036854775808", ""},
+}
+
+// commands that legitimately compute for a time exponential in such operands
+var bigPairBusy = map[string]bool{"math:pow": true}
 
 type plantedProg struct{ class, prog string }
 
@@ -469,6 +539,13 @@ var planted = []plantedProg{
 	{"run-parallel-callee-error", "run-parallel {|a| }"},
 	{"run-parallel-callee-error", "run-parallel $fail~"},
 	{"call:run-parallel", "run-parallel { fail x } { put a }"},
+	{"randint-range-overflow", "randint -5000000000000000000 5000000000000000000"},
+	{"call:randint", "randint -5 5000000000000000000"},
+	{"flag-duplicate-name", "flag:parse [] " + dupSpecs},
+	{"flag-duplicate-name", "flag:call " + dupOptFn + " []"},
+	{"flag-malformed-name", "flag:parse [] [[-a 1 d]]"},
+	{"flag-malformed-name", "flag:parse [] [['a=b' 1 d]]"},
+	{"call:flag:parse", "flag:parse [-a 3] [[a 1 d] [b x d]]"},
 	{"call:str:repeat", "str:repeat abc 3074457345618258603"},
 	{"call:str:repeat", "str:repeat abc -1"},
 }
